@@ -42,7 +42,7 @@ def concretise(c, rnd):
         return f'<svg><{k} id="s" {pos} wh="2 4" {d}/></svg>'
     if f == "linepts":
         r1 = geom.ref_element(rnd.choice(["rect", "ellipse", "box"]), c["ref"], "r")
-        r2 = geom.ref_element(rnd.choice(["rect", "ellipse", "line"]), c["ref2"], "q")
+        r2 = geom.ref_element(rnd.choice(["rect", "ellipse", "line"]), c["ref2"], "q", rnd)
         d = "" if (c["dx"] == 0 and c["dy"] == 0) else f' {q(c["dx"])} {q(c["dy"])}'
         if c["shape"] == "line":
             subj = f'<line id="s" xy1="#r@{c["l1"]}" xy2="#q@{c["l2"]}{d}"/>'
@@ -89,7 +89,7 @@ def concretise(c, rnd):
         if c["where"] == "inline-before":
             return f"<svg>{tpl}{base}{use}</svg>"
         return f"<svg>{base}{use}{tpl}</svg>"
-    r = geom.ref_element(c["refkind"], c["ref"])
+    r = geom.ref_element(c["refkind"], c["ref"], "r", rnd)
     ref = rnd.choice(["#r", "^"])
     k = c["kind"]
     if f == "dirdelta":
